@@ -197,6 +197,93 @@ SPEC = SPEC_CORE + SPEC_KX
 
 LOCALITY = r'''
 // ---------------------------------------------------------------------------------------------------------------
+// The property as stated (C13): decoding what an RFC 4492/5246 ENCODER wrote returns exactly the encoded values,
+// consumes exactly the encoding and leaves the following bytes as remainder - corollaries of the layout contracts.
+pub open spec fn enc_u16(n: int) -> Seq<u8> { seq![(n / 256) as u8, (n % 256) as u8] }
+pub open spec fn enc_opaque16(d: Seq<u8>) -> Seq<u8> { enc_u16(d.len() as int) + d }          // opaque<0..2^16-1>
+pub open spec fn enc_opaque8(d: Seq<u8>) -> Seq<u8> { seq![d.len() as u8] + d }               // opaque<0..2^8-1>
+
+proof fn lemma_lp16_of_enc(pre: Seq<u8>, d: Seq<u8>, post: Seq<u8>)
+    requires d.len() <= 65535,
+    ensures ({ let b = pre + enc_opaque16(d) + post; let o = pre.len() as int;
+        lp_ok(b, o, 2) && lp_data(b, o, 2) =~= d && lp_next(b, o, 2) == o + 2 + d.len() }),
+{
+    let b = pre + enc_opaque16(d) + post; let o = pre.len() as int; let n = d.len() as int;
+    assert(b[o] == (n / 256) as u8 && b[o + 1] == (n % 256) as u8);
+    assert(be16s(b, o) == n);
+    assert(b.subrange(o + 2, o + 2 + n) =~= d);
+}
+proof fn lemma_lp8_of_enc(pre: Seq<u8>, d: Seq<u8>, post: Seq<u8>)
+    requires d.len() <= 255,
+    ensures ({ let b = pre + enc_opaque8(d) + post; let o = pre.len() as int;
+        lp_ok(b, o, 1) && lp_data(b, o, 1) =~= d && lp_next(b, o, 1) == o + 1 + d.len() }),
+{
+    let b = pre + enc_opaque8(d) + post; let o = pre.len() as int; let n = d.len() as int;
+    assert(b[o] == n as u8);
+    assert(b.subrange(o + 1, o + 1 + n) =~= d);
+}
+// ServerDHParams: for all p, g, Ys (lengths 0..65535) and all trailing bytes
+proof fn lemma_dh_roundtrip(p: Seq<u8>, g: Seq<u8>, ys: Seq<u8>, tail: Seq<u8>, r: IResult<&[u8], ServerDHParams>)
+    requires p.len() <= 65535, g.len() <= 65535, ys.len() <= 65535,
+        dh_post(enc_opaque16(p) + enc_opaque16(g) + enc_opaque16(ys) + tail, r),
+    ensures r is Ok, r->Ok_0.1.dh_p@ =~= p, r->Ok_0.1.dh_g@ =~= g, r->Ok_0.1.dh_ys@ =~= ys, r->Ok_0.0@ =~= tail,
+{
+    let b = enc_opaque16(p) + enc_opaque16(g) + enc_opaque16(ys) + tail;
+    let e = Seq::<u8>::empty();
+    lemma_lp16_of_enc(e, p, enc_opaque16(g) + enc_opaque16(ys) + tail);
+    assert(e + enc_opaque16(p) + (enc_opaque16(g) + enc_opaque16(ys) + tail) =~= b);
+    lemma_lp16_of_enc(enc_opaque16(p), g, enc_opaque16(ys) + tail);
+    assert(enc_opaque16(p) + enc_opaque16(g) + (enc_opaque16(ys) + tail) =~= b);
+    lemma_lp16_of_enc(enc_opaque16(p) + enc_opaque16(g), ys, tail);
+    let o3 = 6 + p.len() + g.len() + ys.len();
+    assert(b.subrange(o3 as int, b.len() as int) =~= tail);
+}
+// ECPoint: for all points (length 0..255) and all trailing bytes
+proof fn lemma_ecpoint_roundtrip(pt: Seq<u8>, tail: Seq<u8>, r: IResult<&[u8], ECPoint>)
+    requires pt.len() <= 255, ecpoint_post(enc_opaque8(pt) + tail, r),
+    ensures r is Ok, r->Ok_0.1.point@ =~= pt, r->Ok_0.0@ =~= tail,
+{
+    let b = enc_opaque8(pt) + tail;
+    lemma_lp8_of_enc(Seq::<u8>::empty(), pt, tail);
+    assert(Seq::<u8>::empty() + enc_opaque8(pt) + tail =~= b);
+    assert(b.subrange(1 + pt.len() as int, b.len() as int) =~= tail);
+}
+// DigitallySigned, both forms: for all algorithm pairs, all signatures (0..65535 bytes), all trailing bytes
+proof fn lemma_ds_new_roundtrip(h: u8, sg: u8, sig: Seq<u8>, tail: Seq<u8>, r: IResult<&[u8], DigitallySigned>)
+    requires sig.len() <= 65535, ds_new_post(seq![h, sg] + enc_opaque16(sig) + tail, r),
+    ensures r is Ok, r->Ok_0.1.alg is Some, r->Ok_0.1.alg->Some_0.hash.0 == h, r->Ok_0.1.alg->Some_0.sign.0 == sg,
+        r->Ok_0.1.data@ =~= sig, r->Ok_0.0@ =~= tail,
+{
+    let b = seq![h, sg] + enc_opaque16(sig) + tail;
+    lemma_lp16_of_enc(seq![h, sg], sig, tail);
+    assert(b[0] == h && b[1] == sg);
+    assert(b.subrange(4 + sig.len() as int, b.len() as int) =~= tail);
+}
+proof fn lemma_ds_old_roundtrip(sig: Seq<u8>, tail: Seq<u8>, r: IResult<&[u8], DigitallySigned>)
+    requires sig.len() <= 65535, ds_old_post(enc_opaque16(sig) + tail, r),
+    ensures r is Ok, r->Ok_0.1.alg is None, r->Ok_0.1.data@ =~= sig, r->Ok_0.0@ =~= tail,
+{
+    let b = enc_opaque16(sig) + tail;
+    lemma_lp16_of_enc(Seq::<u8>::empty(), sig, tail);
+    assert(Seq::<u8>::empty() + enc_opaque16(sig) + tail =~= b);
+    assert(b.subrange(2 + sig.len() as int, b.len() as int) =~= tail);
+}
+// ECParameters, named-curve form: curve_type 3, any of the 65536 groups; any other curve type than 1 / 3 is rejected
+proof fn lemma_named_curve_roundtrip(g: u16, tail: Seq<u8>, r: IResult<&[u8], ECParameters>)
+    requires ecparams_post(seq![3u8] + enc_u16(g as int) + tail, r),
+    ensures r is Ok, r->Ok_0.1.curve_type.0 == 3, r->Ok_0.1.params_content is NamedGroup, r->Ok_0.1.params_content->NamedGroup_0.0 == g, r->Ok_0.0@ =~= tail,
+{
+    let b = seq![3u8] + enc_u16(g as int) + tail;
+    assert(b[0] == 3 && b[1] == ((g as int) / 256) as u8 && b[2] == ((g as int) % 256) as u8);
+    assert(be16s(b, 1) == g as int);
+    assert(b.subrange(3, b.len() as int) =~= tail);
+}
+proof fn lemma_other_curve_types_rejected(b: Seq<u8>, r: IResult<&[u8], ECParameters>)
+    requires ecparams_post(b, r), b.len() >= 1, b[0] != 1, b[0] != 3,
+    ensures r is Err && r->Err_0 is Error,
+{}
+
+// ---------------------------------------------------------------------------------------------------------------
 // C06 LOCALITY as corollaries of the contracts alone: a structure decoded from b is decoded identically from b ++ x,
 // and the remainder simply grows by x (nested length fields can never reach into what follows).
 pub proof fn lemma_lp_local(b: Seq<u8>, x: Seq<u8>, o: int, w: int)
